@@ -65,8 +65,8 @@ PROPS = {
     "C11": {
         "modes": [["l0", "{seed}", "{tier}"], ["sweep", "C11", "{seed}", "{tier}"]],
         "compare": ("pred", "spec", "acc", "stream"),
-        "l0_functions": ("chunksize", "runner", "nextchunk", "dospawn", "ofnat_cs"),
-        "l0_nontrivial": ("chunksize", "runner", "nextchunk"),
+        "l0_functions": ("chunksize", "runner", "nextchunk", "dospawn", "ofnat_cs", "spawn"),
+        "l0_nontrivial": ("chunksize", "runner", "nextchunk", "spawn"),
         "nontrivial": nt_parallel,
         "rule": "L0 as C15 (functions chunksize/runner/nextchunk/dospawn); end-to-end: random chains without eager sites, Exact(c) with c in {1, 2..12, 13..40, len, len+1} set at a random position, up to 16 threads, 70% under the deterministic scheduler (first workers progress before the spawner continues); oracle: every worker is handed c, every aligned block [kc,(k+1)c) is evaluated by one worker, source next() bursts are multiples of c; non-trivial = a runner ran and len>=2",
         "explanation": "C11_resolved/C11_runner/C11_next_chunk/C11_workers prove that Exact(c) reaches every worker for every has_more stream; the run ties next_chunk_size/calc_chunk_size to the code exactly and observes real pulls.",
@@ -76,8 +76,8 @@ PROPS = {
     "C08": {
         "modes": [["l0", "{seed}", "{tier}"], ["sweep", "C08", "{seed}", "{tier}"]],
         "compare": ("pred", "spec", "acc", "stream"),
-        "l0_functions": ("numthreads", "runner", "dospawn", "ofnat_nt"),
-        "l0_nontrivial": ("numthreads", "runner", "dospawn"),
+        "l0_functions": ("numthreads", "runner", "dospawn", "ofnat_nt", "spawn"),
+        "l0_nontrivial": ("numthreads", "runner", "dospawn", "spawn"),
         "nontrivial": nt_len2,
         "rule": "L0 (numthreads/runner/dospawn); end-to-end: random chains (incl. eager sites) x all terminals with num_threads(n), n in 1..20, set on the source only; oracle: workers spawned per runner run <= n, live-worker gauge <= n, every closure stage on <= n distinct threads, no foreign thread, Max(1): no runner and everything on the caller; non-trivial = len>=2",
         "explanation": "C08_max_threads + C08_spawn_bound prove <= n workers for every has_more stream; the run ties do_spawn/calc_num_threads exactly and counts real threads via the worker hooks.",
